@@ -11,7 +11,7 @@ CHECKS = {
         technique="runtime monitoring: reference-model oracle over recorded action outputs (in-process find_main + binary), random stratified expression workload",
         level="exploration",
         text="Every execution of the real find_main/binary on a generated expression and tree is compared byte-for-byte (stdout, -fprint* files, recorder log of -exec) with an independent reference evaluation of the same token list; quick ~25k expressions / 14k distinct operator shapes, thorough ~600k. Held means: no observed execution deviated.",
-        note="Trusts lib/refeval.py + lib/refwalk.py (self-checked against a hand-derived table each run) and glibc fnmatch for simple -name patterns; trees on tmpfs, follow mode -P only, 1-3 starting points; expression depth <= 7.",
+        note="Trusts lib/refeval.py + lib/refwalk.py (self-checked against a hand-derived table each run) and glibc fnmatch for simple -name patterns; trees on tmpfs, follow mode -P only, 1-3 starting points; expression depth <= 7. Round 9: operands spelled like operators for -printf/-path/-iname.",
         ref="DESIGN.md section 4 C01"),
     "C02": dict(
         technique="runtime monitoring: multiset oracle (independent lstat/stat walker) over -print0 output, stderr and exit status; fault injection (mode-000 directory walked as uid 65534)",
@@ -77,7 +77,7 @@ CHECKS = {
         technique="runtime monitoring: differential oracle over executions of the real matcher objects (in-process), real symlinks (-lname) and the binary: glibc fnmatch(3) in two locales AND an independent POSIX matcher must agree for a pair to be judged; a sample of pattern rows replayed under valgrind memcheck (native Oniguruma engine; crash = violation, reports advisory)",
         level="exploration",
         text="Bounded-exhaustive: every pattern of length <=3 (quick) / <=4 (thorough) over {a b * ? [ ] ! \\ - .} against every subject of length <=3/<=4 over a 10-symbol alphabet, for -name -iname -path -ipath; structured random patterns (regex metacharacters as literals, escapes, bracket expressions with negation, leading ], ranges, classes, '[' members, trailing -, stray [ ] !, lone trailing backslash) with subjects sampled from the pattern and mutated (prefix, suffix, extension, substitution, case) for all six spellings; -lname/-ilname on real symbolic links; -name/-iname through the find binary on real files. Quick ~5M judged pairs.",
-        note="Judged only where glibc(C.UTF-8) = glibc(C) = lib/posixfn.py; out of domain (counted): backslash or mid-list '-' inside brackets, '[^', non-alphanumeric ranges, collating/equivalence syntax, [:upper:]/[:lower:] under -i forms, classes against non-ASCII characters, subjects '.'/'..' for -name.",
+        note="Judged only where glibc(C.UTF-8) = glibc(C) = lib/posixfn.py; out of domain (counted): backslash or mid-list '-' inside brackets, '[^', non-alphanumeric ranges, collating/equivalence syntax, [:upper:]/[:lower:] under -i forms, classes against non-ASCII characters, subjects '.'/'..' for -name. Round 9: the root directory spelled with 1-6 slashes as a starting point (-name sees '/', -path the spelling).",
         ref="DESIGN.md section 4 C12"),
     "C17": dict(
         technique="runtime monitoring: differential oracle (Python re.fullmatch on the same regex AST) over executions of the matcher objects built by the real parser (in-process) and of the find binary on a real tree; metamorphic twin with every alternation reversed; generated and deliberately damaged patterns replayed under valgrind memcheck (crash = violation, reports advisory)",
@@ -107,7 +107,7 @@ CHECKS = {
         technique="runtime monitoring: independent renderer (Python, from os.lstat/os.stat/os.readlink and string operations on the path text) compared byte-for-byte with the output captured from the real find (in-process, binary sample, -fprintf files read back); oracle-free identities %p = -print and %H/%P recomposition",
         level="exploration",
         text="Random format strings (1-8 pieces: ASCII and multi-byte literals, every escape incl. \\NNN, %%, directives p f h H P d s n i U G m y Y l with optional '-' flag and width 0-40) rendered for every entry of a tree with all file types, links to file/dir/fifo/dangling, setuid/setgid/sticky modes, foreign owners, hard links and multi-byte names, under 19 starting-point spellings (r, ./r, r/, ., ./, absolute, absolute/, sub-directory, link to directory, link/, link to file, dangling link, file, several roots, r//, inner //) and -P/-H/-L. Quick ~3200 formats / ~50k (format, entry) renderings, 180 (directive, mode, flag, width) cells.",
-        note="(The former finding percent-H-root-with-trailing-slash is repaired; its signature is still computed, so a recurrence is reported as a fresh violation.) Not judged: leading zeros of %m, \\NNN above 177, width on non-ASCII values beyond 'padded to the width in characters or in bytes' (the statement does not name the unit), %Y under -H/-L and for dangling links, %l for links the follow mode resolves, %h with // or directly below /, %f/%h of dot components. Round 7: a tmpfs mounted below the starting point in every other worker (%i; needs mount permission, noted otherwise); values with a newline followed by >1 kB on real stdout.",
+        note="(The former finding percent-H-root-with-trailing-slash is repaired; its signature is still computed, so a recurrence is reported as a fresh violation.) Not judged: leading zeros of %m, \\NNN above 177, width on non-ASCII values beyond 'padded to the width in characters or in bytes' (the statement does not name the unit), %Y under -H/-L and for dangling links, %l for links the follow mode resolves, %h with // or directly below /, %f/%h of dot components. Round 7: a tmpfs mounted below the starting point in every other worker (%i; needs mount permission, noted otherwise); values with a newline followed by >1 kB on real stdout. Round 9: widths spelled with leading zeros (fill of a right-justified field: blanks or zeros).",
         ref="DESIGN.md section 4 C16"),
     "C18": dict(
         technique="runtime monitoring: per-starting-point reference walk (paths formed textually from the starting point as spelled) compared with the -print0 output, stderr and exit status of the real binary; operands vs -files0-from equivalence as an oracle-free relation",
